@@ -122,7 +122,7 @@ pub fn c15_roundtrip(c: &RefillCase) -> Outcome {
     let o = &c.opts;
     let para = c.words.join(" ");
     let le = o.le();
-    let mut filled = fill(&para, o.options());
+    let mut filled = fill(&para, &o.options());
     if c.trailing {
         filled.push_str(le);
     }
@@ -183,7 +183,7 @@ pub fn c16_refill(c: &RefillCase) -> Outcome {
     } else {
         ""
     };
-    let got = refill(&filled, o2.options());
+    let got = refill(&filled, &o2.options());
     let mut want = fill(&para, o2.options());
     if c.trailing {
         want.push_str(o2.le());
